@@ -38,35 +38,37 @@ FLOOR = 64.0
 QUAD_REAL = 256.0
 QUAD_MCX = 64.0
 K_CONS = 1e4
+OVERFLOW = 1e150
 H_METHODS = ['central', 'central2', 'forward', 'backward', 'complex', 'multicomplex']
 REAL_STEP = ('central', 'central2', 'forward', 'backward')
 # tol[method|k-bucket|default or user step configuration] (k = number of derivative estimates left after the
 # difference rule; for Hessian the number of generated steps).  Missing key / None = weak cell: shape, symmetry
 # and finiteness only.  Default configurations: 1000 x the worst ratio of the 8-seed calibration rounded up to a
-# power of ten, at least 1e-6; user step configurations (heavy-tailed: the accuracy is the user's choice of
-# steps): at least 1e-2; capped at 0.1 while that is >= 10 x the worst ratio, else weak.
+# power of ten, at least 1e-6, capped at 0.1 while that is >= 10 x the worst ratio, else weak.  User step
+# configurations are heavy-tailed (the accuracy is the user's choice of steps, not a property of the library):
+# asserted only with >= 8 estimates (tol >= 1e-2); fewer estimates = weak.
 TOL_H = {
-    'backward|k2-3|user': None, 'backward|k4-7|user': 0.01, 'backward|k8+|default': 0.0001,
-    'backward|k8+|user': 0.01, 'central2|k1|user': None, 'central2|k2-3|user': 0.01,
-    'central2|k4-7|user': 0.01, 'central2|k8+|default': 1e-06, 'central2|k8+|user': 0.01,
-    'central|k1|user': None, 'central|k2-3|user': 0.1, 'central|k4-7|user': 0.01,
+    'backward|k2-3|user': None, 'backward|k4-7|user': None, 'backward|k8+|default': 0.0001,
+    'backward|k8+|user': 0.01, 'central2|k1|user': None, 'central2|k2-3|user': None,
+    'central2|k4-7|user': None, 'central2|k8+|default': 1e-06, 'central2|k8+|user': 0.01,
+    'central|k1|user': None, 'central|k2-3|user': None, 'central|k4-7|user': None,
     'central|k8+|default': 0.001, 'central|k8+|user': 0.01, 'complex|k1|default': 0.1,
-    'complex|k1|user': 0.1, 'complex|k2-3|user': 0.01, 'complex|k4-7|user': 0.01, 'complex|k8+|user': 0.01,
+    'complex|k1|user': None, 'complex|k2-3|user': None, 'complex|k4-7|user': None, 'complex|k8+|user': 0.01,
     'forward|k2-3|user': None, 'forward|k4-7|user': None, 'forward|k8+|default': 0.001,
     'forward|k8+|user': 0.01, 'multicomplex|k1|default': 1e-06, 'multicomplex|k1|user': None,
-    'multicomplex|k2-3|user': 0.01, 'multicomplex|k4-7|user': 0.01, 'multicomplex|k8+|user': 0.01,
+    'multicomplex|k2-3|user': None, 'multicomplex|k4-7|user': None, 'multicomplex|k8+|user': 0.01,
 }
 TOL_HD = {
-    'backward|k1|user': None, 'backward|k2-3|user': 0.01, 'backward|k4-7|user': 0.1,
+    'backward|k1|user': None, 'backward|k2-3|user': None, 'backward|k4-7|user': None,
     'backward|k8+|default': 0.001, 'backward|k8+|user': 0.01, 'central2|k1|user': None,
-    'central2|k2-3|user': None, 'central2|k4-7|user': 0.01, 'central2|k8+|default': 1e-06,
-    'central2|k8+|user': 0.01, 'central|k1|user': None, 'central|k2-3|user': 0.01, 'central|k4-7|user': 0.01,
+    'central2|k2-3|user': None, 'central2|k4-7|user': None, 'central2|k8+|default': 1e-06,
+    'central2|k8+|user': 0.01, 'central|k1|user': None, 'central|k2-3|user': None, 'central|k4-7|user': None,
     'central|k8+|default': 1e-06, 'central|k8+|user': 0.01, 'complex|k1|default': 0.1,
-    'complex|k1|user': 0.1, 'complex|k2-3|user': 0.01, 'complex|k4-7|user': 0.01, 'complex|k8+|user': 0.01,
-    'forward|k1|user': 0.1, 'forward|k2-3|user': 0.01, 'forward|k4-7|user': None,
+    'complex|k1|user': None, 'complex|k2-3|user': None, 'complex|k4-7|user': None, 'complex|k8+|user': 0.01,
+    'forward|k1|user': None, 'forward|k2-3|user': None, 'forward|k4-7|user': None,
     'forward|k8+|default': 0.001, 'forward|k8+|user': 0.1, 'multicomplex|k1|default': 1e-06,
-    'multicomplex|k1|user': 0.1, 'multicomplex|k2-3|default': 1e-06, 'multicomplex|k2-3|user': 0.1,
-    'multicomplex|k4-7|user': 0.01, 'multicomplex|k8+|user': 0.01,
+    'multicomplex|k1|user': None, 'multicomplex|k2-3|default': 1e-06, 'multicomplex|k2-3|user': None,
+    'multicomplex|k4-7|user': None, 'multicomplex|k8+|user': 0.01,
 }
 KINDS = ('quadratic', 'ridge', 'ridge', 'ridge')
 F9_OPS = ('arctan', 'arcsin', 'arccos')
@@ -147,6 +149,8 @@ class C04(Prop):
             res = mv.fit_steps(build, x_arr, an.reach_limit(), width, spec.get('u', 0.0))
         if isinstance(res, str):
             ctx.skip(res)
+        if an.max_majorant(width * max(float(np.max(t)) for t in res[1])) > OVERFLOW:
+            ctx.skip('function values exceed 1e150 on the sampled region (overflow)')
         return res
 
     def _check(self, case, ctx):
